@@ -148,10 +148,13 @@ enum LOp {
     RelWrite,
     Lock,
     Unlock,
+    Upg,
+    RelUpg,
+    Upgrade,
 }
 
 fn locks(res: &mut SubResult, depth: usize, first: usize) {
-    let alpha = [LOp::Read, LOp::Write, LOp::RelRead, LOp::RelWrite, LOp::Lock, LOp::Unlock];
+    let alpha = [LOp::Read, LOp::Write, LOp::RelRead, LOp::RelWrite, LOp::Lock, LOp::Unlock, LOp::Upg, LOp::RelUpg, LOp::Upgrade];
     let mut idx = vec![0usize; depth];
     idx[0] = first;
     loop {
@@ -163,6 +166,7 @@ fn locks(res: &mut SubResult, depth: usize, first: usize) {
             let mut rg = vec![];
             let mut wg = vec![];
             let mut mg = vec![];
+            let mut ug = vec![];
             let mut obs = vec![];
             for op in &ops {
                 match op {
@@ -191,9 +195,31 @@ fn locks(res: &mut SubResult, depth: usize, first: usize) {
                         None => obs.push("lock:blocked".into()),
                     },
                     LOp::Unlock => obs.push(format!("unlock:{}", mg.pop().is_some())),
+                    LOp::Upg => match l.try_upgradable_read() {
+                        Some(g) => {
+                            obs.push(format!("upg:ok:{}", *g));
+                            ug.push(g)
+                        }
+                        None => obs.push("upg:blocked".into()),
+                    },
+                    LOp::RelUpg => obs.push(format!("relupg:{}", ug.pop().is_some())),
+                    LOp::Upgrade => match ug.pop() {
+                        None => obs.push("upgrade:none".into()),
+                        Some(g) => match parking_lot::RwLockUpgradableReadGuard::try_upgrade(g) {
+                            Ok(mut w) => {
+                                *w += 1;
+                                obs.push("upgrade:ok".into());
+                                wg.push(w)
+                            }
+                            Err(g) => {
+                                obs.push("upgrade:blocked".into());
+                                ug.push(g)
+                            }
+                        },
+                    },
                 }
             }
-            drop((rg, wg, mg));
+            drop((rg, wg, mg, ug));
             obs.push(format!("final:{}", l.into_inner()));
             obs
         };
@@ -206,6 +232,7 @@ fn locks(res: &mut SubResult, depth: usize, first: usize) {
             let mut rg = vec![];
             let mut wg = vec![];
             let mut mg = vec![];
+            let mut ug = vec![];
             let mut obs = vec![];
             for op in &ops2 {
                 match op {
@@ -240,9 +267,34 @@ fn locks(res: &mut SubResult, depth: usize, first: usize) {
                         }
                     }
                     LOp::Unlock => obs.push(format!("unlock:{}", mg.pop().is_some())),
+                    LOp::Upg => {
+                        // the blocking call where it is admitted (this is what the subject uses)
+                        if l.stub_can_upgradable() {
+                            let g = l.upgradable_read();
+                            obs.push(format!("upg:ok:{}", *g));
+                            ug.push(g)
+                        } else {
+                            obs.push("upg:blocked".into())
+                        }
+                    }
+                    LOp::RelUpg => obs.push(format!("relupg:{}", ug.pop().is_some())),
+                    LOp::Upgrade => match ug.pop() {
+                        None => obs.push("upgrade:none".into()),
+                        Some(g) => {
+                            if l.stub_can_upgrade() {
+                                let mut w = shim_parking_lot::RwLockUpgradableReadGuard::upgrade(g);
+                                *w += 1;
+                                obs.push("upgrade:ok".into());
+                                wg.push(w)
+                            } else {
+                                obs.push("upgrade:blocked".into());
+                                ug.push(g)
+                            }
+                        }
+                    },
                 }
             }
-            drop((rg, wg, mg));
+            drop((rg, wg, mg, ug));
             obs.push(format!("final:{}", l.into_inner()));
             *o2.lock().unwrap() = obs;
         });
@@ -321,14 +373,14 @@ fn condvar(res: &mut SubResult) {
 pub fn run(args: &Args) -> SubResult {
     let mut res = SubResult::new("SHIM", "shimconf");
     let d = if args.thorough() { 5 } else { 4 };
-    res.bound = format!("every sequence of {d} operations over 10 channel operations on two unbounded channels (send, try_recv, sender drop/clone, receiver drop, Select readiness set) and over 6 lock operations (RwLock read/write admission, Mutex), single-threaded; two 2-thread condvar scenarios (notify-before-wait is lost, wait-then-notify wakes)");
+    res.bound = format!("every sequence of {d} operations over 10 channel operations on two unbounded channels (send, try_recv, sender drop/clone, receiver drop, Select readiness set) and over 9 lock operations (RwLock read / write / upgradable-read admission and upgrade, Mutex), single-threaded; two 2-thread condvar scenarios (notify-before-wait is lost, wait-then-notify wakes)");
     res.rule = "identical observation traces required between the real crate and the shim; Select::ready compared as the SET of indices it may return (real: repeated try_ready); blocking compared through try_* / enabledness predicates".into();
-    let total = chan_alphabet().len() + 6 + 1;
+    let total = chan_alphabet().len() + 9 + 1;
     let nchan = chan_alphabet().len();
     let mut res = vcommon::run_cases(args, res, total, std::time::Duration::from_secs(900), |idx, res| {
         if idx < nchan {
             channels(res, d, idx);
-        } else if idx < nchan + 6 {
+        } else if idx < nchan + 9 {
             locks(res, d + 1, idx - nchan);
         } else {
             condvar(res);
